@@ -26,14 +26,19 @@ Definition possible_of (sc : sschema) (t : string) : list string :=
   match Merge.Model.lookup t (ss_possible sc) with Some l => l | None => [] end.
 Definition smem (x : string) (l : list string) : bool := existsb (String.eqb x) l.
 
-(* ScrubFields as a set of (path joined by ".", type, field) *)
-Definition scrub := list (string * string * string).
-Definition entry_eqb (a b : string * string * string) : bool :=
-  (fst (fst a) =? fst (fst b)) && (snd (fst a) =? snd (fst b)) && (snd a =? snd b).
-Definition sc_set (s : scrub) (e : string * string * string) : scrub := if existsb (entry_eqb e) s then s else s ++ [e].
+(* ScrubFields as a set of (path, type, field). The code keys the table by the path joined with "." (path_key); the
+   model keeps the path itself — the two agree as long as response keys contain no "." (GraphQL names do not), and
+   the correspondence compares through path_key *)
+Definition entry := (list string * string * string)%type.
+Definition scrub := list entry.
+Fixpoint path_eqb (a b : list string) : bool :=
+  match a, b with [], [] => true | x :: a', y :: b' => (x =? y) && path_eqb a' b' | _, _ => false end.
+Definition entry_eqb (a b : entry) : bool :=
+  path_eqb (fst (fst a)) (fst (fst b)) && (snd (fst a) =? snd (fst b)) && (snd a =? snd b).
+Definition sc_set (s : scrub) (e : entry) : scrub := if existsb (entry_eqb e) s then s else s ++ [e].
 Definition sc_merge (a b : scrub) : scrub := fold_left sc_set b a.
-Definition sc_unset (s : scrub) (path field : string) : scrub :=
-  filter (fun e => negb ((fst (fst e) =? path) && (snd e =? field))) s.
+Definition sc_unset (s : scrub) (path : list string) (field : string) : scrub :=
+  filter (fun e => negb (path_eqb (fst (fst e)) path && (snd e =? field))) s.
 Definition path_key (ip : list string) : string := String.concat "." ip.
 
 (* isContainsField: at this level or inside fragments, at any depth of fragments *)
@@ -89,7 +94,7 @@ Definition sanitize_iface (sc : sschema) (children : list ssel) (cond odef : str
 
 (* setMissingScrubFieldsForFieldSelectionSet *)
 Definition set_missing (sc : sschema) (ip : list string) (alias ty : string) (s : scrub) (added : list string) : scrub :=
-  let path := path_key (ip ++ [alias]) in
+  let path := ip ++ [alias] in
   fold_left (fun acc f =>
                match kind_of sc ty with
                | KOther => sc_set acc (path, ty, f)
@@ -101,7 +106,7 @@ Definition unset_level (ss : list ssel) (ip : list string) (s : scrub) : scrub :
   fold_left (fun acc x =>
                match x with
                | SanField a n _ d _ =>
-                   if (a =? n) && Nat.eqb d 0 && ((n =? "id") || (n =? "__typename")) then sc_unset acc (path_key ip) n else acc
+                   if (a =? n) && Nat.eqb d 0 && ((n =? "id") || (n =? "__typename")) then sc_unset acc ip n else acc
                | SanFrag _ _ _ => acc
                end) ss s.
 
@@ -129,7 +134,7 @@ Fixpoint san_sel (tm : tmap) (sc : sschema) (ip : list string) (s : ssel) (acc :
       let sf := unset_level sub ip sf in
       let scr1 := sc_merge scr sf in
       let '(child', added) := add_scrub_fields tm sc child c in
-      let scr2 := fold_left (fun acc' f => sc_set acc' (path_key ip, c, f)) added scr1 in
+      let scr2 := fold_left (fun acc' f => sc_set acc' (ip, c, f)) added scr1 in
       match kind_of sc o with
       | KIface => (add_to_result result (sanitize_iface sc child' c o), scr2)
       | KUnion => (add_to_result result (sanitize_union child' c o), scr2)
